@@ -53,11 +53,15 @@ def step (s : State) (j : Json) : Except String (State × Json × List Fired) :=
     let code := if e == .createGroupFailed then ierrRaw else errCode e
     if ierr == "" && (s.transition.isSome || !(execTimeOk s (← jint j "now") (← jint j "execTime"))) then
       fired := fired ++ [{ name := "proposal_accepted_during_transition_or_outside_window", detail := Json.null }]
+    if ierr == "" && !(← jbool j "authorityOk") then
+      fired := fired ++ [{ name := "transition_scheduled_without_governance_authority", detail := mkObj [("kind", js "proposal")] }]
     pure (s', (dump s').setObjVal! "err" (js code), fired)
   | "force" =>
     let (s', e) := force s (← jbool j "authorityOk") (← jint j "now") (← jint j "execTime") (← jnat j "gid") (← jbool j "exists")
     if ierr == "" && (s.transition.isSome || !(execTimeOk s (← jint j "now") (← jint j "execTime")) || !s.groupActive (← jnat j "gid")) then
       fired := fired ++ [{ name := "forced_transition_accepted_wrongly", detail := Json.null }]
+    if ierr == "" && !(← jbool j "authorityOk") then
+      fired := fired ++ [{ name := "transition_scheduled_without_governance_authority", detail := mkObj [("kind", js "forced")] }]
     pure (s', (dump s').setObjVal! "err" (js (errCode e)), fired)
   | "setGroup" =>  -- harness bookkeeping: a tss group created outside a transition (members, active)
     let gid ← jnat j "gid"
@@ -85,6 +89,9 @@ def step (s : State) (j : Json) : Except String (State × Json × List Fired) :=
         fired := fired ++ [{ name := "current_group_changed_outside_execution", detail := mkObj [("from", jn s.currentGroup), ("to", jn icur)] }]
       -- a scheduled transition disappears only for a reason of its own (its group's creation failed or expired, its
       -- hand-over signing failed): events about other groups or signings leave it alone
+      -- …and it does NOT survive them: an incoming group whose key generation failed or expired never becomes the signing group
+      if s.transition.isSome && s'.transition.isNone && itr != Json.null then
+        fired := fired ++ [{ name := "transition_survives_failed_key_generation_or_handover", detail := mkObj [("transition", itr)] }]
       if s'.transition.isSome && itr == Json.null then
         fired := fired ++ [{ name := "scheduled_transition_dropped_without_cause", detail := mkObj [("transition", trJson s'.transition)] }]
       pure (s', dump s', fired)
